@@ -163,13 +163,24 @@ def replace_uses_of(model: Model, cls: ClassInfo):
                 if isinstance(st, ast.Assign) and isinstance(st.targets[0], ast.Attribute) and isinstance(st.targets[0].value, ast.Name) and st.targets[0].value.id == "self":
                     fld = st.targets[0].attr
                     info = {"assigned": unparse(st.value), "cmp": None, "cmp_to": None, "guarded": False, "node": n, "chained": id(n) in in_orelse}
-                    for c in ast.walk(n.test):
+                    from .sem import local_env as _le_ru, resolve as _rs_ru
+
+                    rtest = _rs_ru(n.test, _le_ru(f, allow_impure=True))  # a comparison held in a local is read in place
+                    for c in ast.walk(rtest):
                         if isinstance(c, ast.Compare) and len(c.ops) == 1 and isinstance(c.ops[0], ast.Eq):
                             info["cmp"] = unparse(c.left)
                             info["cmp_to"] = unparse(c.comparators[0])
                     if isinstance(n.test, ast.BoolOp):
                         first = n.test.values[0]
                         info["guarded"] = isinstance(first, ast.Attribute) and first.attr == fld
+                    if not info["guarded"]:
+                        # nested form: `if self.<f>:` around the comparison
+                        for outer in ast.walk(f):
+                            if isinstance(outer, ast.If) and outer is not n and any(x is n for s_ in outer.body for x in ast.walk(s_)):
+                                tt = outer.test
+                                tt = tt.left if isinstance(tt, ast.Compare) and isinstance(tt.ops[0], ast.IsNot) else tt
+                                if isinstance(tt, ast.Attribute) and tt.attr == fld:
+                                    info["guarded"] = True
                     if not info["guarded"]:
                         # guard clause form: an earlier top-level `if not self.<f>: return` / `if self.<f> is None: return`
                         for g in f.body:
